@@ -103,6 +103,12 @@ func Seed() uint64 {
 	return v
 }
 
+// BaseSeed is VERIF_SEED itself (the same in every shard of a run).
+func BaseSeed() uint64 {
+	v, _ := strconv.ParseUint(envOr("VERIF_SEED", "1"), 10, 64)
+	return v
+}
+
 func BinDir() string  { return envOr("VERIF_BIN", ".") }
 func WorkDir() string { return envOr("VERIF_WORK", os.TempDir()) }
 func Replay() string  { return os.Getenv("VERIF_REPLAY") }
